@@ -238,11 +238,12 @@ type Arith struct {
 	ctx     *FnCtx
 	atoms   map[string]ssa.Value // atom key -> defining value (for axioms)
 	lenOf   map[string]ssa.Value // "len:<key>" -> the container value
+	nonneg  map[string]bool
 	is32bit bool
 }
 
 func (m *Model) NewArith(fn *ssa.Function) *Arith {
-	return &Arith{m: m, fn: fn, ctx: m.Ctx(fn), atoms: map[string]ssa.Value{}, lenOf: map[string]ssa.Value{}, is32bit: m.Config == "GOARCH=386"}
+	return &Arith{m: m, fn: fn, ctx: m.Ctx(fn), atoms: map[string]ssa.Value{}, lenOf: map[string]ssa.Value{}, nonneg: map[string]bool{}, is32bit: m.Config == "GOARCH=386"}
 }
 
 func (a *Arith) intSize(t types.Type) int {
@@ -324,8 +325,45 @@ func (a *Arith) linD(v ssa.Value, d int) Lin {
 		if b, ok := x.Call.Value.(*ssa.Builtin); ok && (b.Name() == "min" || b.Name() == "max") {
 			return a.atom(v)
 		}
+		if sc := x.Call.StaticCallee(); sc != nil && fnFullName(sc) == "(*bytes.Buffer).Len" {
+			return a.bufLen(x.Call.Args[0], x)
+		}
+		if sc := x.Call.StaticCallee(); sc != nil && pureIntFuncs[fnFullName(sc)] != 0 {
+			k := "pure:" + fnFullName(sc) + "("
+			for _, arg := range x.Call.Args {
+				k += a.canonKey(arg) + ","
+			}
+			k += ")"
+			if _, ok := a.atoms[k]; !ok {
+				a.atoms[k] = v
+			}
+			if pureIntFuncs[fnFullName(sc)] == 2 {
+				a.nonneg[k] = true
+			}
+			return linAtom(k)
+		}
 	}
 	return a.atom(v)
+}
+
+// pureIntFuncs: library functions whose integer result depends only on their
+// arguments (1) and is additionally non-negative (2).
+var pureIntFuncs = map[string]int{
+	"(reflect.Value).Len":            2,
+	"(reflect.Value).NumField":       2,
+	"unicode/utf8.RuneCountInString": 2,
+	"unicode/utf8.RuneCount":         2,
+}
+
+// bufLen: the value of recv.Len() at instruction at, as an atom shared by all
+// Len() calls on recv not separated by another use of recv.
+func (a *Arith) bufLen(recv ssa.Value, at ssa.Instruction) Lin {
+	k := "buflen:" + valKey(recv) + a.ctx.bufVersion(recv, at)
+	if _, ok := a.atoms[k]; !ok {
+		a.atoms[k] = nil
+	}
+	a.nonneg[k] = true
+	return linAtom(k)
 }
 
 func (a *Arith) atom(v ssa.Value) Lin {
@@ -452,8 +490,18 @@ func (a *Arith) axioms(form Lin, seen map[string]bool) []Ineq {
 				if cv, ok := x.(*ssa.Convert); ok && isStringT(cv.X.Type()) {
 					out = append(out, Ineq{linAtom(k).add(a.lenLin(cv.X, 0), -1), 0})
 				}
+				if call, ok := x.(*ssa.Call); ok {
+					if sc := call.Call.StaticCallee(); sc != nil && fnFullName(sc) == "strings.Split" {
+						if sep, ok := call.Call.Args[1].(*ssa.Const); ok && !isEmptyStringConst(sep) {
+							out = append(out, Ineq{linAtom(k).scale(-1), -1}) // at least one piece
+						}
+					}
+				}
 			}
 			continue
+		}
+		if a.nonneg[k] {
+			out = append(out, Ineq{linAtom(k).scale(-1), 0})
 		}
 		v := a.atoms[k]
 		if v == nil {
@@ -462,21 +510,51 @@ func (a *Arith) axioms(form Lin, seen map[string]bool) []Ineq {
 		if isInteger(v.Type()) && isUnsigned(v.Type()) {
 			out = append(out, Ineq{linAtom(k).scale(-1), 0})
 		}
+		if inv := a.m.inv; inv != nil {
+			if p, ok := v.(*ssa.Parameter); ok && inv.params[p] {
+				out = append(out, Ineq{linAtom(k).scale(-1), 0})
+			}
+			if ld, ok := v.(*ssa.UnOp); ok && ld.Op == token.MUL {
+				if fa, ok := ld.X.(*ssa.FieldAddr); ok && inv.fields[fieldID{derefTypeString(fa.X.Type()), fa.Field}] {
+					out = append(out, Ineq{linAtom(k).scale(-1), 0})
+				}
+			}
+		}
 		switch x := v.(type) {
 		case *ssa.Phi:
-			// induction: phi(init, phi+c)  => monotone
-			if len(x.Edges) == 2 {
-				for i := 0; i < 2; i++ {
-					init, step := x.Edges[i], x.Edges[1-i]
-					sl := a.lin(step).add(linAtom(k), -1) // step - phi
-					if len(sl.T) == 0 && sl.C != 0 && !dependsOn(init, x) {
-						il := a.lin(init)
-						if sl.C > 0 { // phi >= init
-							out = append(out, mkIneq(il.add(linAtom(k), -1), 0))
-						} else { // phi <= init
-							out = append(out, mkIneq(linAtom(k).add(il, -1), 0))
+			// induction: phi(init, phi+c1, phi+c2, ...) with all ci of one sign => monotone
+			var inits []Lin
+			up, down, okInd := 0, 0, true
+			for _, e := range x.Edges {
+				if !dependsOn(e, x) {
+					il := a.lin(e)
+					dupl := false
+					for _, p := range inits {
+						if p.String() == il.String() {
+							dupl = true
 						}
 					}
+					if !dupl {
+						inits = append(inits, il)
+					}
+					continue
+				}
+				sl := a.lin(e).add(linAtom(k), -1) // step - phi
+				if len(sl.T) != 0 || sl.C == 0 {
+					okInd = false
+					break
+				}
+				if sl.C > 0 {
+					up++
+				} else {
+					down++
+				}
+			}
+			if okInd && len(inits) == 1 && (up == 0) != (down == 0) {
+				if up > 0 { // phi >= init
+					out = append(out, mkIneq(inits[0].add(linAtom(k), -1), 0))
+				} else { // phi <= init
+					out = append(out, mkIneq(linAtom(k).add(inits[0], -1), 0))
 				}
 			}
 		case *ssa.BinOp:
@@ -607,8 +685,38 @@ func (a *Arith) ProveValLE(form Lin, k int64, pt point) bool {
 
 func (a *Arith) ineqsFrom(facts []Fact) []Ineq {
 	var out []Ineq
+	type neq struct {
+		d Lin // x - y != 0
+	}
+	var neqs []neq
 	for _, f := range facts {
 		out = append(out, a.ineqsOf(f)...)
+		if b, ok := f.Cond.(*ssa.BinOp); ok && isInteger(b.X.Type()) {
+			if (b.Op == token.NEQ && f.Holds) || (b.Op == token.EQL && !f.Holds) {
+				neqs = append(neqs, neq{a.lin(b.X).add(a.lin(b.Y), -1)})
+			}
+		}
+	}
+	// x != c together with x >= c gives x >= c+1 (and symmetrically); iterate for chains (len != 0, len != 1)
+	for iter := 0; iter < 4 && len(neqs) > 0; iter++ {
+		changed := false
+		var rest []neq
+		for _, n := range neqs {
+			switch {
+			case a.proveLE(n.d.scale(-1), 0, out, 3): // d >= 0
+				out = append(out, mkIneq(n.d.scale(-1), -1)) // d >= 1
+				changed = true
+			case a.proveLE(n.d, 0, out, 3): // d <= 0
+				out = append(out, mkIneq(n.d, -1))
+				changed = true
+			default:
+				rest = append(rest, n)
+			}
+		}
+		neqs = rest
+		if !changed {
+			break
+		}
 	}
 	return out
 }
@@ -908,4 +1016,170 @@ func (m *Model) fieldWritesTrans() map[*ssa.Function]map[fieldID]bool {
 	}
 	m.fwTrans = res
 	return res
+}
+
+// bufVersion: see Arith.bufLen.
+func (c *FnCtx) bufVersion(recv ssa.Value, at ssa.Instruction) string {
+	var lens, muts []ssa.Instruction
+	if refs := recv.Referrers(); refs != nil {
+		for _, r := range *refs {
+			if call, ok := r.(*ssa.Call); ok {
+				if sc := call.Call.StaticCallee(); sc != nil && fnFullName(sc) == "(*bytes.Buffer).Len" {
+					lens = append(lens, r)
+					continue
+				}
+			}
+			if r != at {
+				muts = append(muts, r)
+			}
+		}
+	}
+	var qual []ssa.Instruction
+	for _, l := range lens {
+		if l == at || !c.instrDominates(l, at) {
+			continue
+		}
+		killed := false
+		for _, w := range muts {
+			if c.instrReaches(l, w) && c.instrReaches(w, at) {
+				killed = true
+				break
+			}
+		}
+		if !killed {
+			qual = append(qual, l)
+		}
+	}
+	for _, q := range qual {
+		outer := true
+		for _, o := range qual {
+			if o != q && !c.instrDominates(q, o) {
+				outer = false
+			}
+		}
+		if outer {
+			return "#" + q.(ssa.Value).Name()
+		}
+	}
+	if v, ok := at.(ssa.Value); ok {
+		return "#" + v.Name()
+	}
+	return fmt.Sprintf("#at%d.%d", at.Block().Index, c.idx[at])
+}
+
+// ---------------------------------------------------------------------------
+// Inductive non-negativity invariants of integer struct fields and parameters.
+//
+// A signed integer field is non-negative if every store to it in the module
+// stores a value that is provably >= 0 assuming all candidate fields and
+// parameters are (greatest fixpoint; zero values and literals are >= 0).
+// A parameter is non-negative if it has at least one in-module call site and
+// every call site passes a provably non-negative argument. Integer overflow is
+// not modelled.
+
+type nonnegInv struct {
+	fields map[fieldID]bool
+	params map[*ssa.Parameter]bool
+}
+
+func (m *Model) NonnegInv() *nonnegInv {
+	if m.inv != nil && m.invDone {
+		return m.inv
+	}
+	inv := &nonnegInv{fields: map[fieldID]bool{}, params: map[*ssa.Parameter]bool{}}
+	m.inv = inv
+	type storeSite struct {
+		st *ssa.Store
+		id fieldID
+	}
+	var stores []storeSite
+	type argSite struct {
+		p    *ssa.Parameter
+		site ssa.CallInstruction
+		arg  ssa.Value
+	}
+	var args []argSite
+	var fns []*ssa.Function
+	for _, fn := range m.ModFns {
+		if isUserPkg(fnPkgPath(fn)) || fn.Blocks == nil {
+			continue
+		}
+		fns = append(fns, fn)
+	}
+	for _, fn := range fns {
+		for _, b := range fn.Blocks {
+			for _, in := range b.Instrs {
+				if st, ok := in.(*ssa.Store); ok {
+					if fa, ok := st.Addr.(*ssa.FieldAddr); ok && isInteger(st.Val.Type()) && !isUnsigned(st.Val.Type()) {
+						id := fieldID{derefTypeString(fa.X.Type()), fa.Field}
+						if strings.HasPrefix(id.typ, modPath) {
+							inv.fields[id] = true
+							stores = append(stores, storeSite{st, id})
+						}
+					}
+				}
+			}
+		}
+		node := m.CG.Nodes[fn]
+		for pi, p := range fn.Params {
+			if !isInteger(p.Type()) || isUnsigned(p.Type()) || node == nil {
+				continue
+			}
+			n := 0
+			for _, e := range node.In {
+				caller := e.Caller.Func
+				if isUserPkg(fnPkgPath(caller)) || !m.InModule(caller) {
+					continue
+				}
+				com := e.Site.Common()
+				ai := pi
+				if com.IsInvoke() {
+					ai = pi - 1 // receiver is not in Args
+				}
+				if ai < 0 || ai >= len(com.Args) {
+					n = -1000
+					break
+				}
+				args = append(args, argSite{p, e.Site, com.Args[ai]})
+				n++
+			}
+			if n > 0 {
+				inv.params[p] = true
+			}
+		}
+	}
+	ariths := map[*ssa.Function]*Arith{}
+	ar := func(fn *ssa.Function) *Arith {
+		if a, ok := ariths[fn]; ok {
+			return a
+		}
+		a := m.NewArith(fn)
+		ariths[fn] = a
+		return a
+	}
+	for changed := true; changed; {
+		changed = false
+		for _, s := range stores {
+			if !inv.fields[s.id] {
+				continue
+			}
+			a := ar(s.st.Parent())
+			if !a.ProveValLE(a.lin(s.st.Val).scale(-1), 0, pointOf(s.st)) {
+				delete(inv.fields, s.id)
+				changed = true
+			}
+		}
+		for _, s := range args {
+			if !inv.params[s.p] {
+				continue
+			}
+			a := ar(s.site.Parent())
+			if !a.ProveValLE(a.lin(s.arg).scale(-1), 0, pointOf(s.site)) {
+				delete(inv.params, s.p)
+				changed = true
+			}
+		}
+	}
+	m.invDone = true
+	return inv
 }
